@@ -52,8 +52,8 @@ for d in sorted(glob.glob(V + "/seeded/C*-*")):
                            "polyseed_crypt, although the property covers encrypted seeds and every encoder/decoder harness starts from a canonical "
                            "(Inv) seed. k8_crypt was added to C01's list because of it; run directly on the patched tree "
                            "(VF_REPO=<worktree> ./vf run k8_crypt --replay) it fails 'K8 result is a canonical seed (Inv)' and 'K8 secret XOR first 19 "
-                           "mask bytes, top two bits of the 19th dropped' with a natively reproduced counterexample. The full C01 trial was not "
-                           "repeated with the completed list (end of the session).")
+                           "mask bytes, top two bits of the 19th dropped' with a natively reproduced counterexample. The check_run above is the "
+                           "repeated C01 trial with the completed list (exit 1, 395 s).")
     if sid == "C20-R6C":
         meta["origin"] += "; written by the C03 agent as its second change (a static phrase buffer in polyseed_encode): sequential behaviour is unchanged, so it is kept and tried as a C20 change"
     json.dump(meta, open(d + "/meta.json", "w"), indent=1)
@@ -100,7 +100,7 @@ with open(V + "/seeded/README.md", "w") as f:
             "manifest: a rare value, a boundary length, one language, hidden state between calls, a fault at one exit, two cooperating\n"
             "sites): 39 of 40 caught by the quick check of their property as it stood, each with a natively reproduced counterexample;\n"
             "C01-R6B (CLEAR_MASK applied before the XOR in polyseed_crypt) passed the C01 check, whose instance list had no polyseed_crypt harness --\n"
-            "k8_crypt (which fails on it, reproduced natively) was added to C01 because of it\n"
+            "k8_crypt (which fails on it, reproduced natively) was added to C01 because of it, and the repeated C01 trial reports the violation\n"
             "(C20-R6C is the C03 agent's second change -- a static phrase buffer in polyseed_encode, a thread-safety defect -- and was run\n"
             "against C20). In the same round the whole linear scan of t2_search moved into the quick tier (the list kind became a\n"
             "compile-time constant of the instance instead of an assumption: 90 s instead of 21 min), so C05-R5B is now caught by the quick\n"
